@@ -5,7 +5,7 @@ from .. import AnalysisError
 from ..effects import strip_epoch
 from ..index import walk_local, ClassInfo
 from ..interp import fmt_term, const, AVal
-from ..layout import Atoms, to_lin, lower_read, lower_bytes_expr, LayoutError, struct_fields
+from ..layout import Atoms, to_lin, lower_read, lower_bytes_expr, LayoutError, struct_fields, accumulated_emits
 from ..linear import Lin
 from . import COMMON_ASSUMPTIONS
 from .parserlib import path_facts
@@ -299,6 +299,11 @@ def rule_c(ctx):
                     for (fo, w, signed), a in zip(fs, e.data['args'][1:]):
                         if not a.is_const():
                             yield e, a.term, (1 << (8 * w - (1 if signed else 0))) - 1
+            # bytearray.append(n) narrows n to one byte as well
+            if e.kind == 'call' and e.data.get('name') == 'append' and e.data.get('args') and \
+                    e.data.get('recv') is not None and 'bytearray' in repr(e.data['recv'].term) and \
+                    not e.data['args'][0].is_const():
+                yield e, e.data['args'][0].term, 255
 
     n, ok, detail = _capacity_checks(ctx, g, tg, packs, 'tag length')
     if n == 0:
@@ -527,9 +532,11 @@ def rule_f(ctx):
         if p.outcome != 'return' or not any(e.kind == 'loop' and e.data.get('phase') == 'back' for e in p.events):
             continue
         n += 1
-        ems = []
         try:
-            lower_bytes_expr(p.value.term, ems, Atoms(), opaque_calls=True)
+            ems = accumulated_emits(p, Atoms(), opaque_calls=True)
+            if ems is None:
+                ems = []
+                lower_bytes_expr(p.value.term, ems, Atoms(), opaque_calls=True)
         except LayoutError as ex:
             raise AnalysisError('C18.f: tag writer: %s' % ex)
         body = [e for e in ems if not (e.kind == 'int' and e.nbytes == 0)]
